@@ -204,6 +204,8 @@ pub struct Directives {
 
 pub struct Pipe {
     pub gc: GrammarConfig,
+    /// the grammar before `check_and_transform_grammar` (what `GrammarConfig::try_from` resolved `%on` / `%skip` on)
+    pub pre_cfg: Cfg,
     pub dfas: Option<BTreeMap<String, LookaheadDFA>>,
     pub table: Option<LRParseTable>,
     pub conflicts: usize,
@@ -236,18 +238,19 @@ pub fn pipeline(par: &str, max_k: usize) -> Result<Pipe, String> {
     let ignored: BTreeSet<String> = gc.unreachable_non_terminals_to_ignore.iter().cloned().collect();
     let cfg = check_and_transform_grammar_with_ignored(&gc.cfg, gc.grammar_type, &ignored)
         .map_err(|_| "check".to_string())?;
+    let pre_cfg = gc.cfg.clone();
     gc.update_cfg(cfg);
     match gc.grammar_type {
         GrammarType::LLK => {
             let dfas = parol::calculate_lookahead_dfas(&gc, max_k).map_err(|_| "lookahead".to_string())?;
             let k = dfas.values().map(|d| d.k).max().unwrap_or(0);
             gc.update_lookahead_size(k);
-            Ok(Pipe { gc, dfas: Some(dfas), table: None, conflicts: 0, directives })
+            Ok(Pipe { gc, pre_cfg, dfas: Some(dfas), table: None, conflicts: 0, directives })
         }
         GrammarType::LALR1 => {
             let (table, conflicts) = parol::calculate_lalr1_parse_table(&gc).map_err(|_| "lalr".to_string())?;
             gc.update_lookahead_size(1);
-            Ok(Pipe { gc, dfas: None, table: Some(table), conflicts: conflicts.len(), directives })
+            Ok(Pipe { gc, pre_cfg, dfas: None, table: Some(table), conflicts: conflicts.len(), directives })
         }
     }
 }
@@ -1339,6 +1342,8 @@ pub fn random_par(rng: &mut Rng) -> String {
             for _ in 0..len {
                 match rng.below(10) {
                     0..=5 => syms.push(terminal(rng, &bias, &scanners)),
+                    // recursion: never in the first alternative (productivity), never as first symbol (left recursion)
+                    6 if a > 0 && !syms.is_empty() && rng.chance(1, 2) => syms.push(format!("N{}", rng.range(0, i))),
                     6 | 7 if i + 1 < nnt => syms.push(format!("N{}", rng.range(i + 1, nnt - 1))),
                     8 if !prims.is_empty() => syms.push(rng.pick(&prims).clone()),
                     9 => {
@@ -1421,15 +1426,18 @@ pub const FIXED: &[&str] = &[
     "%start S\n%on Tk %enter M\n%scanner M { %auto_newline_off %on Tk %enter INITIAL %skip Sk }\n%%\nS: 'x' Tk <M>\"x\" Tk Sk;\nTk: <INITIAL, M>/x/ ?= 'y';\nSk: <M>'-';\n",
     "%start S\n%grammar_type 'LALR(1)'\n%skip Sk\n%on P %push M\n%scanner M { %on Q %pop }\n%%\nS: P 'if' Q \"if\" Sk;\nP: '(';\nQ: <M>')';\nSk: '-';\n",
     "%start S\n%%\nS: \"a\" \"q\" X | \"y\" | \"a\" \"z\" 'a';\nX: 'x';\n",
+    // left factoring changes the first-occurrence order of the terminals (a x b z -> a b z x): finding F26
+    "%start S\n%skip Sk\n%%\nS: \"a\" { \"x\" } \"b\" | \"a\" \"z\";\nSk: \"z\";\n",
+    "%start S\n%on Sk %enter M\n%scanner M { %on Sk %enter INITIAL }\n%%\nS: \"a\" { \"x\" } \"b\" | \"a\" \"z\" <M>'y' Sk;\nSk: <INITIAL, M>\"z\";\n",
 ];
 
 pub fn par_cases(seed: u64, thorough: bool) -> Vec<(String, usize)> {
     let mut rng = Rng::new(seed ^ 0xC21);
     let mut out: Vec<(String, usize)> = FIXED.iter().map(|s| (s.to_string(), 3)).collect();
-    for p in repo_pars(if thorough { 60_000 } else { 6_000 }) {
+    for p in repo_pars(if thorough { 2_000_000 } else { 20_000 }) {
         out.push((p, if thorough { 5 } else { 3 }));
     }
-    let n = if thorough { 2500 } else { 260 };
+    let n = if thorough { 20000 } else { 2000 };
     for _ in 0..n {
         out.push((random_par(&mut rng), rng.range(1, 3)));
     }
